@@ -116,8 +116,8 @@ def run(rep):
         "the renamed package uses no identifier starting with the new prefix other than images of the renaming (freshness; "
         "hypothesis of prefix_equivariant_global, built into the generated packages)",
         "per-plugin overrides: no plugin's prefix is a prefix of another's for the names-disjoint theorem; the F13 witness lies outside",
-        "a prefix that is a keyword / predeclared identifier / single letter is only given to packages in which goderive mints no helper "
-        "named by a bare prefix (defect N1 in .work/new-defects-names.md: newName would mint `func`, `len`, `h` as function names)",
+        "a helper named by a bare single-letter prefix may coincide with a local of the emitted code (known finding F49, class "
+        "C12/helper-shadowed-by-local): such runs are generated, replayed and classified, anything else is a violation",
         "customised prefixes are not captured by other identifiers: they have at least 3 letters and differ from every identifier of the "
         "package and from the parameters / locals of the emitted code (this, that, dst, src, object, h, v, i, k, …); a prefix such as `h` "
         "makes a hash function named h whose local `h := uint64(17)` shadows it (generator hygiene of goderive, outside C12's wording)",
@@ -132,6 +132,7 @@ def run(rep):
     stat = {"groups": 0, "global_textual_equal": 0, "plugin_canonical_equal": 0, "capture_runs": 0, "capture_rejected": 0,
             "capture_handler_checked": 0, "with_helpers": 0, "outcomes": {}}
     f13 = []
+    f49 = []
 
     def handle(case, variant, obs, model, line):
         stat["outcomes"][obs["class"]] = stat["outcomes"].get(obs["class"], 0) + 1
@@ -139,8 +140,13 @@ def run(rep):
             f13.append((case, obs, model, line))
             return
         if case["stream"] == "c12":
-            groups.setdefault(case["group"], []).append((case, obs, model, line))
             spec, corr = names.compare_case(case, variant, obs, model, check_types=False)
+            cls = shadowed_by_local(case, obs)
+            if cls:
+                # known class C12/helper-shadowed-by-local (F49): replayed here, kept out of the group comparison
+                f49.append((case, obs, line, cls))
+                return
+            groups.setdefault(case["group"], []).append((case, obs, model, line))
             if obs["class"] == "ok" and len(obs.get("funcs", [])) > sum(len(f["calls"]) for f in case["files"]):
                 stat["with_helpers"] += 1
             if spec:
@@ -223,6 +229,41 @@ def run(rep):
         rep.violation("correspondence T2 broken: the real goderive and the Lean model differ on %d runs, first: %s" % (len(corrs), what),
                       {"kind": "t2", "correspondence": "T2 registerAll/dispatch", "case": case, "variant": variant, "observed": o, "model_line": line}, False)
     finding_f13(rep, f13)
+    finding_f49(rep, f49)
+
+
+SHADOW_RE = re.compile(r"derived\.gen\.go:\d+:\d+: (?:invalid operation: )?cannot call non-function (\w+) \(variable of type")
+
+
+def shadowed_by_local(case, obs):
+    """Witness class C12/helper-shadowed-by-local: the run succeeded, derived.gen.go does not type-check because a
+    helper named by the bare customised prefix of a plugin is called where a local of the emitted code has that name."""
+    if obs.get("class") != "ok":
+        return None
+    m = SHADOW_RE.search(obs.get("type_error") or "")
+    if not m:
+        return None
+    overridden = set()
+    for a in case.get("goderive_args") or []:
+        if a.startswith("-pluginprefix="):
+            overridden = set(x.split("=", 1)[1] for x in a.split("=", 1)[1].split(","))
+    return m.group(1) if m.group(1) in overridden else None
+
+
+def finding_f49(rep, f49):
+    rep.cov["f49_class_runs"] = len(f49)
+    if not f49:
+        return
+    case, obs, line, ident = f49[0]
+    what = ("C12/helper-shadowed-by-local: %d run(s); first: %s — the helper named by the bare prefix `%s` is shadowed by a local of the "
+            "emitted code: exit 0, %s" % (len(f49), " ".join(case.get("goderive_args") or []), ident, (obs.get("type_error") or "").split(": ", 1)[-1][:90]))
+    if names.known_finding("F49"):
+        rep.known.append("F49 " + what)
+    else:
+        o = dict(obs)
+        o.pop("derived", None), o.pop("canon", None)
+        rep.violation("C12 fails on the real goderive (class C12/helper-shadowed-by-local, not listed in known_findings.json): " + what,
+                      {"kind": "t2", "case": case, "variant": "-", "observed": o, "model_line": line}, True)
 
 
 def finding_f13(rep, f13):
